@@ -84,7 +84,7 @@ Definition op_fbin (t : fty) (op : fbin) : Z :=
   match op with FAdd => 0 | FSub => 1 | FMul => 2 | FDiv => 3 end.
 Definition op_frel (t : fty) (op : cmp) : Z :=
   (match t with F32 => 91 | F64 => 97 end) +
-  match op with Eq => 0 | Ne => 1 | Lt => 2 | Gt => 3 | Le => 4 | Ge => 5 end.
+  match op with CEq => 0 | CNe => 1 | CLt => 2 | CGt => 3 | CLe => 4 | CGe => 5 end.
 Definition op_cvt (c : cvtop) : Z :=
   match c with
   | CWrap => 167
@@ -305,7 +305,7 @@ Section Exec.
     end.
 
   Definition fbin_arith (op : fbin) : arith :=
-    match op with FAdd => Add | FSub => Sub | FMul => Mul | FDiv => Div end.
+    match op with FAdd => AAdd | FSub => ASub | FMul => AMul | FDiv => ADiv end.
 
   Definition cvt_sem (c : cvtop) (v : wval) : option (trap + wval) :=
     match c, v with
